@@ -2006,7 +2006,8 @@ def isin_array(*,
             pass
 
     assume_unique = array_is_unique and other_is_unique
-    func = np.in1d if array.ndim == 1 else np.isin
+    # np.isin handles 1D and 2D arrays; np.in1d was removed in NumPy 2
+    func = np.isin
 
     result = func(array, other, assume_unique=assume_unique) #type: ignore
     result.flags.writeable = False
